@@ -290,6 +290,7 @@ class StubsStringGenerator:
 
         # Superclasses
         already_defined_names: set[str] = added_class_attributes.union(added_class_methods)
+        already_defined_names.update(inner_class.name for inner_class in class_.classes)
         superclasses = class_.superclasses
         superclass_info = ""
         superclass_methods_text = ""
@@ -908,7 +909,9 @@ class StubsStringGenerator:
 
         # Inner classes
         for inner_class in superclass_class.classes:
-            if not is_internal(inner_class.name):
+            # The subclass or a nearer superclass can have an inner class with the same name
+            if not is_internal(inner_class.name) and inner_class.name not in already_defined_names:
+                existing_names.add(inner_class.name)
                 class_string = self._create_class_string(
                     class_=inner_class,
                     class_indentation=inner_indentations,
